@@ -39,7 +39,10 @@ Addr(name, den, alw, slot) == [name |-> name, den |-> den, alw |-> alw, slot |->
 PolicyAddrs == { Addr("d4", TRUE, TRUE, 0), Addr("d4m", TRUE, TRUE, 0), Addr("d6", TRUE, TRUE, 0),
                  Addr("n4", FALSE, FALSE, 0), Addr("n6", FALSE, FALSE, 0), Addr("dn", TRUE, FALSE, 0),
                  Addr("a1", FALSE, TRUE, 1), Addr("a1m", FALSE, TRUE, 0), Addr("a6", FALSE, TRUE, 0),
-                 Addr("a4x", FALSE, TRUE, 0) }
+                 Addr("a4x", FALSE, TRUE, 0),
+                 \* native IPv6 clients in ::/96 (the "IPv4-compatible" range; not IPv4-mapped, so they stay IPv6):
+                 \* covered by an IPv6 allow entry / by IPv6 deny and allow entries / spelling an allowed IPv4 host
+                 Addr("a6low", FALSE, TRUE, 0), Addr("d6low", TRUE, TRUE, 0), Addr("c4a", FALSE, FALSE, 0) }
 A1 == Addr("a1", FALSE, TRUE, 1)
 D4 == Addr("d4", TRUE, TRUE, 0)
 
